@@ -272,6 +272,7 @@ class Hub:
         self.ev_seq = 0
         self.steps = 0
         self.crashed = False
+        self.interrupted = False
         self.crash_label = None
         self.killed_label = None
         self._spin = {}
@@ -411,7 +412,7 @@ class Hub:
                     owner = self.actors[ms["owner"]]
                     self.maps.append({"fn": ms["fn"], "placement": ms["placement"], "w": ms["w"], "n": ms["n"]})
                     self.map_state = None
-                    self._reply(owner, {"a": "go"})
+                    self._reply(owner, {"a": "raise" if ms.get("interrupt_owner") else "go"})
                     running = owner.slot
                     continue
             if all(s in exit_codes for s in mains):
@@ -482,6 +483,26 @@ class Hub:
                     exit_codes[a.slot] = "killed"
                     running = None
                     continue
+                if f.get("kind") == "interrupt" and f.get("index") == seq and not self.interrupted:
+                    # SIGINT sent to the top-level process (kill -INT <pid>): Python raises KeyboardInterrupt in its main thread
+                    # at the system call it is in; the stack unwinds (finally blocks, destructors, exit handlers run, all of
+                    # them still scheduled by this hub).  When the signal arrives while the process waits for its pool (the
+                    # event belongs to a worker) the executor first lets the workers finish the queue (shutdown(wait=True) in
+                    # __exit__), then the exception surfaces in the owner: delivered when the map completes.
+                    self.interrupted = True
+                    self.crash_label = label
+                    if a.role == "worker" and self.map_state is not None:
+                        self.map_state["interrupt_owner"] = True
+                        self.trace.append(["interrupt", "deferred-to-pool-owner", seq])
+                    else:
+                        phase = f.get("phase", "before")
+                        self.trace.append(["interrupt", phase, seq])
+                        ans = {"a": "raise"} if phase == "before" else {"a": "go", "raise_after": True}
+                        if m["k"] == "getmtime":
+                            ans["mtime"] = self.mtimes.get(m["p"], 0)
+                        self._reply(a, ans)
+                        running = slot
+                        continue
                 hit = f.get("kind") == "kill" and f.get("index") == seq
                 if hit and f.get("phase") == "before":
                     self.crashed, self.crash_label = True, label
@@ -508,7 +529,8 @@ class Hub:
             raise HarnessError("unexpected pending %r" % (m,))
         reap()
         self.exit_code = exit_codes.get(mains[0])
-        return {"exit": self.exit_code, "crashed": False, "exit_codes": exit_codes}
+        return {"exit": self.exit_code, "crashed": bool(self.interrupted), "interrupted": bool(self.interrupted),
+                "exit_codes": exit_codes}
 
     def _observe(self, a, m, seq):
         k, p = m["k"], m["p"]
